@@ -47,6 +47,12 @@ def lexer_obligations(sess: rx.Session, tier: str) -> List[rx.Obligation]:
         obs.append(rx.ob_operator(sess, f"layout:{op}", "whitespace", n_ws, op, kind, layout, runs, layout=layout))
     for op, kind in ls.PREFIX_OPERATORS.items():
         obs.append(rx.ob_operator(sess, f"layout:{op}", "whitespace", n_ws, op, kind, layout, runs, leading_ws=False, layout=layout))
+    # a literal / lambda keyword directly followed by each character that may legally follow it is the keyword token
+    after_literal = layout + "),"
+    for word, kind in (("true", "BOOLEAN"), ("false", "BOOLEAN"), ("null", "NULL")):
+        obs.append(rx.ob_accept(sess, f"keyword-delimiter:{word}", "keyword-delimiter", n_ws, kind, word, after_literal))
+    for word, kind in (("any", "ANY"), ("all", "ALL")):
+        obs.append(rx.ob_accept(sess, f"keyword-delimiter:{word}", "keyword-delimiter", n_ws, kind, word, "("))
     obs.append(rx.ob_ws_token(sess, "layout:WS-maximal-run", "whitespace", n_ws, "WS", layout,
                               also=list(ls.BINARY_OPERATORS.values())))
     obs.sort(key=lambda o: -o.N)
@@ -268,6 +274,12 @@ def _templates() -> List[dict]:
     add("any-empty", ["a/", K("any"), "(", O(), ")"])
     add("any-lambda", ["a/", K("any"), "(", O(), "x", O(), ":", O(), "x/k"] + _op("eq") + ["1", O(), ")"])
     add("all-lambda", ["a/b/", K("all"), "(", O(), "x", O(), ":", O(), K("not"), R(), "x/k"] + _op("in") + ["(1,2)", O(), ")"])
+    add("kw-in-list", ["f"] + _op("in") + ["(", O(), K("true"), O(), ",", O(), K("false"), O(), ",", O(), K("null"), O(), ")"])
+    add("kw-call-args", ["ns.g(", O(), K("null"), O(), ",", O(), "name", O(), ",", O(), K("true"), O(), ")"])
+    add("kw-call-1", ["length(", O(), K("null"), O(), ")"])
+    add("kw-named", ["ns.f(", O(), "a=", K("true"), O(), ",", O(), "b=", K("null"), O(), ",", O(), "c=", K("false"), O(), ")"])
+    add("kw-paren", ["(", O(), K("true"), O(), ")"] + _op("or") + ["(", O(), K("null"), O(), ")"])
+    add("kw-lambda", ["a/", K("any"), "(", O(), "x", O(), ":", O(), K("true"), O(), ")"])
     add("lit-true", ["a"] + _op("eq") + [K("true")])
     add("lit-false", [K("false")] + _op("ne") + ["a"])
     add("lit-null", ["a"] + _op("eq") + [K("null")])
@@ -430,10 +442,10 @@ LAYOUT_HEADER = "from verif.props.c19 import layout  # noqa\n"
 
 def layout_items(tier: str) -> List[Item]:
     """per template four conditions: (opt) every optional-white-space site independently; (rws) every required run independently
-    (quick: at most 2 independent sites, further sites follow the last one); (case) every keyword's case independently (quick: at most 3);
+    (quick: 1-2 independent sites, further sites follow the last one); (case) every keyword's case independently (quick: at most 2);
     (mixed) all optional sites together x one run for all required sites x one case for all keywords."""
     items: List[Item] = []
-    cap_r, cap_k, cap_o = (2, 3, 5) if tier == "quick" else (4, 5, 8)
+    cap_r, cap_k, cap_o = (1, 2, 4) if tier == "quick" else (4, 5, 8)
     for ti, tpl in enumerate(TEMPLATES):
         no, nr, nk = sites(ti)
         zo, zr, zk = "(" + "0, " * no + ")", "(" + "0, " * nr + ")", "(" + "0, " * nk + ")"
@@ -447,6 +459,9 @@ def layout_items(tier: str) -> List[Item]:
                               describe=f"{canon_text!r}: {no} optional white-space sites, each independently '' or ' '"))
         if nr:
             k = min(nr, cap_r)
+            if tier == "quick" and tpl["name"] in ("arith-add", "cmp-eq", "bool-and", "all-lambda", "kw-in-list"):
+                k = min(nr, 2)     # quick tier: two independent runs on a few templates, one elsewhere (the per-operator
+                #                    white-space behaviour itself is the lexer layer's obligation layout:<op>)
             params = ", ".join(f"r{i}: int" for i in range(k))
             pre = " and ".join(f"0 <= r{i} < {len(RWS_RUNS)}" for i in range(k))
             tup = "(" + "".join(f"r{min(i, k - 1)}, " for i in range(nr)) + ")"
@@ -463,7 +478,8 @@ def layout_items(tier: str) -> List[Item]:
             tup_o = "(" + "o, " * no + ")"
             tup_r = "(" + "r, " * nr + ")"
             tup_k = "(" + "k, " * nk + ")"
-            items.append(Item(f"lay_mixed_{nm}", "o: bool, r: int, k: int", f"0 <= r < {len(RWS_RUNS)} and 0 <= k < 3",
+            rpre = f"0 <= r < {len(RWS_RUNS)}" if tier != "quick" else f"(r == 0 or r == {len(RWS_RUNS) - 1})"
+            items.append(Item(f"lay_mixed_{nm}", "o: bool, r: int, k: int", f"{rpre} and 0 <= k < 3",
                               f"layout({ti}, {tup_o}, {tup_r}, {tup_k})", family="parser-layout:mixed",
                               describe=f"{canon_text!r}: all optional sites on/off x one run for all required sites x one case for all keywords"))
     return items
